@@ -11386,3 +11386,80 @@ func ruleResolvedDefinitionSwitchesResolveAliases(c *core.Ctx) {
 		c.Undecided(rule, "anchor/switches over ResolvedDefinition", 0, "none with a primitive case and an abort found in the back ends")
 	}
 }
+
+// ruleDepthTestBeforeMemoLookup (I3): collectPackages bounds the import recursion with a depth counter and keeps a memo
+// of the packages it has seen. A package found in the memo returns at once; if that lookup stands in front of the depth
+// test, a package that some OTHER import reached first on a short path is exempt from the limit, and whether a package
+// is accepted depends on the order of the import list (fix bc47dce).
+func ruleDepthTestBeforeMemoLookup(c *core.Ctx) {
+	const rule = "I3"
+	c.Rule(rule, "packaging.collectPackages: the test of the remaining depth stands in front of the lookup in the already-collected memo that returns early (the limit applies on every path to a package, whichever import reached it first)", 1)
+	_, d, p := c.Func("pkg/packaging", "collectPackages")
+	if d == nil || p == nil {
+		c.Undecided(rule, "anchor/pkg/packaging.collectPackages", 0, "anchor not found")
+		return
+	}
+	info := p.TypesInfo
+	params := map[types.Object]bool{}
+	for _, o := range paramObjs(info, d) {
+		if o != nil {
+			params[o] = true
+		}
+	}
+	depthPos, memoPos := token.NoPos, token.NoPos
+	for _, st := range d.Body.List {
+		is, ok := st.(*ast.IfStmt)
+		if !ok || !stmtLeaves(is.Body) {
+			continue
+		}
+		// depth test: an integer parameter compared with a constant
+		if be, ok := ast.Unparen(is.Cond).(*ast.BinaryExpr); ok && is.Init == nil {
+			if o := identObj(info, be.X); o != nil && params[o] {
+				if b, isB := o.Type().Underlying().(*types.Basic); isB && b.Info()&types.IsInteger != 0 {
+					if _, isC := constInt(info, be.Y); isC && depthPos == token.NoPos {
+						depthPos = is.Pos()
+					}
+				}
+			}
+		}
+	}
+	// memo lookup: `x, found := M[k]` on a map parameter in the init of an if whose body can return
+	ast.Inspect(d.Body, func(m ast.Node) bool {
+		is, ok := m.(*ast.IfStmt)
+		if !ok || is.Init == nil {
+			return true
+		}
+		as, ok := is.Init.(*ast.AssignStmt)
+		if !ok || len(as.Rhs) != 1 {
+			return true
+		}
+		ix, ok := ast.Unparen(as.Rhs[0]).(*ast.IndexExpr)
+		if !ok {
+			return true
+		}
+		o := identObj(info, ix.X)
+		if o == nil || !params[o] {
+			return true
+		}
+		if _, isMap := o.Type().Underlying().(*types.Map); !isMap {
+			return true
+		}
+		returns := false
+		ast.Inspect(is.Body, func(k ast.Node) bool {
+			if _, ok := k.(*ast.ReturnStmt); ok {
+				returns = true
+			}
+			return true
+		})
+		if returns && memoPos == token.NoPos {
+			memoPos = is.Pos()
+		}
+		return true
+	})
+	if depthPos == token.NoPos || memoPos == token.NoPos {
+		c.Undecided(rule, "collectPackages/depth test and memo lookup", d.Pos(), "the depth test or the memo lookup was not recognised")
+		return
+	}
+	c.Check(depthPos < memoPos, rule, "collectPackages/depth test before memo lookup", d.Pos(), "the depth is tested before the memo can return",
+		"the memo lookup returns before the depth is tested: a package that another import reached first on a shorter path is accepted at any depth, so `imports: [../p10, ../p1]` and `imports: [../p1, ../p10]` give different verdicts")
+}
